@@ -252,6 +252,26 @@ Section Integrator.
         else x :: obs_without_predict ops' os'
     | _, _ => []
     end.
+
+  (** ** Predicates used by the statements of the theorems *)
+
+  (** Buffer row [r] and trajectory row [tp] describe the same state: [tp] was
+      produced from [r], or [r] was filled from the supplied [tp]. *)
+  Definition row_ok (r : brow) (tp : time * prow) : Prop :=
+    snd tp = to_pub r \/ r = of_pub (snd tp).
+
+  (** rows [0 .. n_data-1] of the buffer exist and match the trajectory *)
+  Definition valid_prefix (s : state) : Prop :=
+    Forall2 row_ok (firstn (length (traj s)) (buf s)) (traj s).
+
+  (** the invariant of every reachable state *)
+  Definition Inv (s : state) : Prop := 1 <= length (traj s) /\ valid_prefix s.
+
+  (** equality up to everything the code can never read again: cells at index
+      >= length traj (dirtied by [predict], or garbage) and the capacity *)
+  Definition equiv (s1 s2 : state) : Prop :=
+    with_alt s1 = with_alt s2 /\ traj s1 = traj s2 /\
+    firstn (length (traj s1)) (buf s1) = firstn (length (traj s2)) (buf s2).
 End Integrator.
 
 Arguments mkState {brow prow time} _ _ _.
@@ -282,6 +302,10 @@ Arguments latest_pva {prow inc} p ops.
 Arguments incs_since {prow inc} acc ops.
 Arguments rows_from {brow prow inc time} kstep to_pub inc_time b r incs.
 Arguments obs_without_predict {prow inc time} ops os.
+Arguments row_ok {brow prow time} to_pub of_pub r tp.
+Arguments valid_prefix {brow prow time} to_pub of_pub s.
+Arguments Inv {brow prow time} to_pub of_pub s.
+Arguments equiv {brow prow time} s1 s2.
 
 (** * Free-algebra instance: running the model yields the provenance of every row *)
 
@@ -374,3 +398,16 @@ Definition check_case (c : tcase) : nat :=
       else if negb (Bool.eqb (with_alt s) (c_alt c)) then 7
       else 0
   end.
+
+(** * A small numeric instance (used by the non-vacuity examples of C02/C13)
+
+    rows are (altitude, vertical velocity); an increment is its own time step;
+    the 2D step sets VD := 0 and moves the altitude by the mean vertical velocity. *)
+Definition toy_row : Type := (Z * Z)%type.
+Definition toy_kstep (b : bool) (r : toy_row) (dt : Z) : toy_row :=
+  if b then (fst r - snd r * dt, snd r + dt)%Z
+  else (fst r - (snd r + 0) * dt, 0)%Z.
+Definition toy_zero_vd (p : toy_row) : toy_row := (fst p, 0%Z).
+Definition toy_run_init :=
+  run_init toy_kstep (fun r : toy_row => r) (fun p : toy_row => p) toy_zero_vd
+           (fun dt : Z => dt) (0%Z, 0%Z).
